@@ -151,4 +151,13 @@ def run(ctx):
         R.ob('C04.tracked', ('<BaseChannel as Sink>::start_send', 'writes the response it was given'), bool(ir) and all(r == ('param', ss.id, 2) and not norm_path(p) for r, p in ir),
              'the item written is the response passed in', [ss.loc(st_)])
     # source coverage while blocked (E-SHAPE): known finding D5 for limiter chains
-    coverage(ctx, 'C04.cover', ('K', 'T'))
+    coverage(ctx, 'C04.cover', ('K', 'T', 'R'))
+    # cascade: a Cancel written by an aborted handler's client is flushed before that dispatch goes idle (C14.flush on the client)
+    from .C14 import judge
+    from .shape_common import find_cell_accessors, run_jobs
+    from engine.shape import STAR
+    poll = F.trait_method('Future', 'client::RequestDispatch', 'poll')
+    acc, fields = find_cell_accessors(F, P, 'client::RequestDispatch', lambda t: t.startswith('std::option::Option<'))
+    cells = [((sorted(fields)[0], 'None'),), ((sorted(fields)[0], ('Some', STAR)),)] if fields else [()]
+    res = run_jobs(F, [{'key': 'client', 'entry': poll.id, 'aut': ('sink',), 'acc': acc, 'cells': cells}])
+    judge(ctx, res['client'], poll, 'C04.cascade', 'client dispatch poll (cancel leaves the client)')
